@@ -156,11 +156,12 @@ func runC04(c *Ctx) {
 	}
 	jsonTextAsData(c, "R5")
 	newValueTable(c, "R15")
+	c.shared("R17", "C08/R1", "a program that does not assign to the document leaves it as read: match bindings are the document's own cells, and every match evaluation pops its frame on every way out (a frame left behind keeps them bound to names that later code assigns to)", keyHas("balance "), func(s *Ctx) { c08R1(s, discoverFrameModel(s.P)) })
 	c.shared("R7", "C14/R4", "what -o writes is the root selected last: every selector's result becomes a root (a null result included)", keyHas("selector-root-unconditional", "root-list"), func(s *Ctx) { rootsPerValue(s, "R4") })
 	stringIndexArm(c, "R8")
 	c.shared("R10", "C15/R3", "a program that only reads leaves the document as it was: sort works on a clone with fresh cells (assigning into the sorted copy does not write into the document)", keyHas("sort-clone", "array.sort effects"), func(s *Ctx) { c15R3(s, nativeMethods(s.P)) })
 	if eu := c.P.LangFunc("(*Evaluator).evalUnaryExpr"); eu != nil {
-		c.shared("R11", "C09/R5", "++ / -- on a copy (a for-in variable) does not reach the document: numbers are never updated in place, the new value is assigned through evalAssignment", nil, func(s *Ctx) { incdecTable(s, "R5", eu) })
+		c.shared("R11", "C09/R5", "++ / -- on a copy (a for-in variable) does not reach the document: numbers are never updated in place, the new value is assigned through evalAssignment", func(o Obligation) bool { return !strings.HasSuffix(o.Key, "-result") }, func(s *Ctx) { incdecTable(s, "R5", eu) })
 	}
 	c.shared("R16", "C14/R2", "the document is what the input bytes say: the interpreter reads the opened file (or standard input) itself — no filtering reader in between that drops or rewrites bytes", keyHas("input-files", "stdin-only"), c14R2)
 	c.shared("R14", "C09/R1", "a program that only reads leaves the document as read: member and index reads store nothing through their operand cells (an explicit null in the document is not given a shape by reading through it)", nil, c09R1)
